@@ -37,6 +37,15 @@ impl Duration {
 }
 #[derive(Clone, Copy, Debug, PartialEq, Eq, Structural)]
 pub struct Instant { pub t: u128 }
+impl vstd::std_specs::ops::AddSpecImpl<Duration> for Instant {
+    open spec fn obeys_add_spec() -> bool { true }
+    open spec fn add_req(self, rhs: Duration) -> bool { self.t + rhs.nanos <= u128::MAX }
+    open spec fn add_spec(self, rhs: Duration) -> Instant { Instant { t: (self.t + rhs.nanos) as u128 } }
+}
+impl core::ops::Add<Duration> for Instant {
+    type Output = Instant;
+    fn add(self, rhs: Duration) -> (r: Instant) { Instant { t: self.t + rhs.nanos } }
+}
 impl Instant {
     pub fn duration_since(&self, earlier: Instant) -> (r: Duration)
         ensures r.nanos == (if self.t >= earlier.t { self.t - earlier.t } else { 0 })
